@@ -994,16 +994,23 @@ fn main() {
         }
     }
     // --- every pool descriptor as a single file, both ways of naming it
+    // (quick: one naming each, alternating; thorough: both)
     for a in 0..n {
-        run.history(&mut rng, &[Call::Files(vec![fa(a, true)])], "files1");
-        run.history(&mut rng, &[Call::Files(vec![fa(a, false)])], "files1");
+        if thorough || a % 2 == 0 {
+            run.history(&mut rng, &[Call::Files(vec![fa(a, true)])], "files1");
+        }
+        if thorough || a % 2 == 1 {
+            run.history(&mut rng, &[Call::Files(vec![fa(a, false)])], "files1");
+        }
     }
     // --- every two-call history and every two-file batch over the pool with at least one file
-    // call (quick: one in eight, drawn; thorough: all)
-    let keep = |rng: &mut Rng| thorough || rng.chance(1, 8);
+    // call (quick: every 61st pair, so that the quick tier keeps its number of Coq shards;
+    // thorough: every pair, alternating between the two shapes)
+    let mut pair_no = 0usize;
     for a in 0..n {
         for b in 0..n {
-            if keep(&mut rng) {
+            pair_no += 1;
+            if (thorough && pair_no % 2 == 0) || pair_no % 61 == 7 {
                 let (na, nb) = (rng.chance(1, 2), rng.chance(1, 2));
                 let calls = match rng.below(3) {
                     0 => vec![Call::Add(vec![a]), Call::Files(vec![fa(b, nb)])],
@@ -1012,7 +1019,7 @@ fn main() {
                 };
                 run.history(&mut rng, &calls, "files2");
             }
-            if keep(&mut rng) {
+            if (thorough && pair_no % 2 == 1) || pair_no % 61 == 38 {
                 let (na, nb) = (rng.chance(1, 2), rng.chance(1, 2));
                 run.history(&mut rng, &[Call::Files(vec![fa(a, na), fa(b, nb)])], "filebatch2");
             }
@@ -1027,7 +1034,7 @@ fn main() {
     for a in variants {
         for b in variants {
             vk += 1;
-            if !thorough && vk % 2 == 1 {
+            if !thorough && vk % 13 != 0 {
                 continue;
             }
             let (na, nb) = (rng.chance(1, 2), rng.chance(1, 2));
@@ -1042,7 +1049,7 @@ fn main() {
         }
     }
     // --- random histories mixing all call kinds
-    let kf = if thorough { 2000 } else { 120 };
+    let kf = if thorough { 1000 } else { 25 };
     let good_f = [0usize, 1, 2, 4, 5, 6, 24, 25, 26, 27, 28, 29, 30, 31, 32, 34];
     for _ in 0..kf {
         let len = 2 + rng.below(9);
@@ -1103,7 +1110,7 @@ fn main() {
         for a in variants {
             for b in variants {
                 vk += 1;
-                if !thorough && vk % 4 != 0 {
+                if !thorough && vk % 7 != 0 {
                     continue;
                 }
                 let fail = match vk % 5 {
@@ -1120,7 +1127,7 @@ fn main() {
             }
         }
         // --- random histories over all call kinds
-        let kg = if thorough { 2000 } else { 120 };
+        let kg = if thorough { 1000 } else { 100 };
         let good_g = [0usize, 1, 2, 4, 5, 6, 24, 25, 26, 27, 28, 29, 30, 31, 32, 34];
         for _ in 0..kg {
             let len = 3 + rng.below(8);
